@@ -41,6 +41,20 @@ def pressure_program(n: int, in_function=False, across_call=False) -> str:
     return "\n".join(lines) + "\n"
 
 
+def edge_program(n: int, in_func: bool = False) -> str:
+    """exactly n values live at the same time and no temporaries: n <= 16 fits the register file"""
+    ind = "    " if in_func else ""
+    L = [HDR, ""]
+    if in_func:
+        L += ["def f():"]
+    L += [f"{ind}v{i} = d{i % 6}.{['Setting', 'On', 'Mode', 'Open', 'Lock', 'Activate'][(i // 6) % 6]}" for i in range(n)]
+    L += [f"{ind}d{i % 6}.Setting = v{i}" for i in range(n)]
+    L += [f"{ind}db.Setting = v{n - 1 - i}" for i in range(0, n, 3)]
+    if in_func:
+        L += ["", "f()", "f()"]
+    return "\n".join(L) + "\n"
+
+
 def run(tier: str) -> int:
     rep = harness.Report(PROP, tier, "exploration")
     rep.assumptions = ASSUMPTIONS
@@ -75,6 +89,9 @@ def run(tier: str) -> int:
         for inf in (False, True):
             for ac in (False, True):
                 press.append((f"pressure:{k}:{'f' if inf else 'm'}:{'call' if ac else 'nocall'}", pressure_program(k, inf, ac), k))
+    for k in (13, 14, 15, 16, 17, 18):
+        for inf in (False, True):
+            press.append((f"edge:{k}:{'f' if inf else 'm'}", edge_program(k, inf), k))
     for name, src, k in press:
         items.append(("monitor", dict(name=name, sources=src, tier=tier, shadow=True, opts={"inline_functions": False}, need=k)))
     items.append(("monitor", dict(name="witness:ref_id_register", sources=base.witness.WITNESS["ref_id_register"]["src"], tier=tier, shadow=True, witness="ref_id_register")))
@@ -97,6 +114,8 @@ def run(tier: str) -> int:
                 rejected += 1
                 if "registers" not in (r.get("detail") or ""):
                     rep.notes.append(f"note: {spec['name']} rejected with: {r.get('detail')}")
+            elif r["status"] == "load_error":
+                pass  # reported above
             elif spec["need"] > 16:
                 path = e1.save_replay(PROP, dict(property=PROP, kind="monitor", name=spec["name"], sources=spec["sources"], opts=spec.get("opts", {}), result=r))
                 rep.violation(f"{spec['name']}: needs {spec['need']} simultaneously live values but was not rejected", path)
